@@ -521,7 +521,26 @@ def fam_rcu_reentrant(rng):
     return p
 
 
+def fam_rwlock(rng):
+    """the lock-based reference strategy under concurrency: readers, swap/store, compare_and_swap and rcu on 2-3 threads
+    (the scheduler takes the baton away from a thread that blocks on the lock)"""
+    n = rng.choice([2, 2, 3])
+    th = []
+    for t in range(1, 1 + n):
+        x = rng.random()
+        if x < 0.4:
+            th.append(cas_ops(rng, t, 0, rng.randrange(1, 3)))
+        elif x < 0.75:
+            th.append(writer_ops(rng, t, 0, rng.randrange(1, 3)))
+        else:
+            th.append(reader_ops(rng, t, 0, rng.randrange(1, 3)))
+    if not any(o.get("op") in ("store", "swap", "rcu", "cas") for ops in th for o in ops):
+        th[0] = writer_ops(rng, 1, 0, 2)
+    return prog_with_setup(rng, th, strategy="rwlock")
+
+
 FAMILIES = {
+    "rwlock": fam_rwlock,
     "rcu_reentrant": fam_rcu_reentrant,
     "serde": fam_serde,
     "cache2": fam_cache2,
@@ -616,6 +635,11 @@ def sandwich(tier="quick", start_id=0):
     pairs_q += [("casg/st2", warm + casg, warm2 + st2, "default", 40, 2), ("casr/st2", warm + casr, warm2 + st2, "default", 40, 2),
                 ("casg/st2/nofast", warm + casg, warm2 + st2, "nofast", 44, 2)]
     pairs_t += [("casg/st2", warm + casg, warm2 + st2, "default", 44, 70), ("casr/st2", warm + casr, warm2 + st2, "default", 44, 70)]
+    # the lock-based reference strategy (the scheduler takes the baton away from a thread that blocks on the lock)
+    pairs_q += [("cas/sw/rwlock", warm + cas, warm2 + sw, "rwlock", 16, 14), ("rcu/st/rwlock", warm + rcu, warm2 + st, "rwlock", 16, 12),
+                ("ld/st/rwlock", warm + ld, warm2 + st, "rwlock", 12, 12)]
+    pairs_t += [("cas/sw/rwlock", warm + cas, warm2 + sw, "rwlock", 16, 14), ("rcu/st/rwlock", warm + rcu, warm2 + st, "rwlock", 16, 12),
+                ("ld/st/rwlock", warm + ld, warm2 + st, "rwlock", 12, 12), ("rcu/rcu/rwlock", warm + rcu, warm2 + [{"op": "rcu", "c": 0, "h": 43}, {"op": "deref_h", "h": 43}], "rwlock", 16, 16)]
     ser = [{"op": "ser", "c": 0}]
     pairs_q += [("cas/aba", warm + cas, aba, "default", 40, 2), ("rcu/aba", warm + rcu, aba, "default", 40, 2),
                 ("ser/st", warm + ser, warm2 + st, "default", 24, 2)]
